@@ -110,6 +110,8 @@ def run(ck: Check):
     from universe import marker_matrix, session_universe
     marker_matrix(lambda strategy, cfg, tc, **kw: ex.dfs(strategy, cfg, tc, **kw), quick, others=("minimize-around", "minimize-balanced"))
     session_universe(ck, oracle_c04, quick=quick)
+    from envmatrix import run_matrix
+    run_matrix(ck, ("C04",))
     from scale import big_frame_and_subdeletion
     big_frame_and_subdeletion(ck, frame=False, sub=True)
     ex.diff()
